@@ -5,6 +5,7 @@ go 1.23.0
 require (
 	github.com/dunglas/mercure v0.0.0
 	github.com/golang-jwt/jwt/v5 v5.2.1
+	github.com/prometheus/client_golang v1.20.5
 	github.com/yosida95/uritemplate/v3 v3.0.2
 	go.uber.org/zap v1.27.0
 )
@@ -28,7 +29,6 @@ require (
 	github.com/mitchellh/mapstructure v1.5.0 // indirect
 	github.com/munnerz/goautoneg v0.0.0-20191010083416-a7dc8b61c822 // indirect
 	github.com/pelletier/go-toml/v2 v2.2.3 // indirect
-	github.com/prometheus/client_golang v1.20.5 // indirect
 	github.com/prometheus/client_model v0.6.1 // indirect
 	github.com/prometheus/common v0.62.0 // indirect
 	github.com/prometheus/procfs v0.15.1 // indirect
